@@ -16,6 +16,7 @@ import (
 	"github.com/google/go-eventlog/register"
 	"github.com/google/go-eventlog/tcg"
 	"github.com/google/go-tdx-guest/rtmr"
+	"github.com/google/go-tdx-guest/verify"
 )
 
 func init() {
@@ -40,6 +41,7 @@ type ecase struct {
 	Policy   ref.Policy  `json:"policy"`
 	MustFail bool        `json:"must_fail"`
 	MustPass bool        `json:"must_pass"`
+	Twin     *world.Case `json:"-"` // the unbroken case of the same world
 }
 
 // refReplay replays the sample event log with an own extend loop over upstream's event parser:
@@ -67,7 +69,30 @@ func refReplay() (measured [4]bool, regs [4][]byte, err error) {
 }
 
 func ccelProblem(c *ecase, measured [4]bool, regs [4][]byte) (problem string, gotState bool) {
+	p, got := ccelProblemWith(c, measured, regs, nil)
+	if p != "" || c.Twin == nil {
+		return p, got
+	}
+	// the same call through verification options that successfully served the unbroken twin just before
+	sh := &verify.Options{}
+	_ = mon.RunVerifyShared(c.Twin, sh)
+	p2, got2 := ccelProblemWith(c, measured, regs, sh)
+	if p2 != "" {
+		return "through a re-used verification options value (after the unbroken twin): " + p2, got2
+	}
+	if got2 != got {
+		return fmt.Sprintf("state returned=%v through a re-used verification options value, %v through a fresh one", got2, got), got2
+	}
+	return "", got
+}
+
+func ccelProblemWith(c *ecase, measured [4]bool, regs [4][]byte, shared *verify.Options) (problem string, gotState bool) {
 	vo, _ := mon.Options(c.V)
+	if shared != nil {
+		g := vo.Getter
+		shared.GetCollateral, shared.CheckRevocations, shared.Getter, shared.Now, shared.TrustedRoots = vo.GetCollateral, vo.CheckRevocations, g, vo.Now, vo.TrustedRoots
+		vo = shared
+	}
 	po := toOptions(&c.Policy)
 	m := mon.MessageFor("built", c.V.Quote)
 	var anyq any = m
@@ -152,12 +177,16 @@ func c18(x *mon.Ctx) {
 		return ref.Policy{ReportData: append([]byte{}, sq.ReportData...), MrTd: append([]byte{}, sq.MrTd...),
 			Rtmrs: [][]byte{sq.Rtmrs[0], sq.Rtmrs[1], sq.Rtmrs[2], sq.Rtmrs[3]}, MinTeeTcbSvn: make([]byte, 16)}
 	}
+	base := mk(r)
 	var cases []*ecase
 	add := func(w *world.World, lvl int, class, param string, pol ref.Policy, mustFail, mustPass bool) {
 		c := w.Case(lvl, class, param)
-		cases = append(cases, &ecase{V: c, Policy: pol, MustFail: mustFail, MustPass: mustPass})
+		e := &ecase{V: c, Policy: pol, MustFail: mustFail, MustPass: mustPass}
+		if w.Root() == base.Root() {
+			e.Twin = base.Case(lvl, "twin", "")
+		}
+		cases = append(cases, e)
 	}
-	base := mk(r)
 	for _, l := range levels {
 		add(base, l, "twin", fmt.Sprint("level", l), goodPolicy(), false, true)
 		add(base, l, "twin-empty-policy", fmt.Sprint("level", l), ref.Policy{}, false, true)
@@ -217,6 +246,18 @@ func c18(x *mon.Ctx) {
 		p.AnyMrTd = [][]byte{variant(r, "random-differs", sq.MrTd)}
 		add(base, world.LBase, "policy-mismatch", "any-mr-td", p, true, false)
 	}
+	// verification faults that only differ from the twin in the OPTIONS (same quote, same chain): time past the chain's expiry, another pool
+	{
+		w := base.Clone()
+		w.Times[world.TPckCertChain] = world.Far.NotAfter.Add(world.Day)
+		add(w, world.LBase, "verify-fault", "options/time-past-chain-expiry", goodPolicy(), true, false)
+		w = base.Clone()
+		w.Roots = certs(other.PKI.Root)
+		add(w, world.LBase, "verify-fault", "options/pool-replaced", goodPolicy(), true, false)
+		w = base.Clone()
+		w.Roots = []*x509Cert{}
+		add(w, world.LBase, "verify-fault", "options/pool-emptied", goodPolicy(), true, false)
+	}
 	// both gates failing
 	{
 		w := base.Clone()
@@ -237,6 +278,27 @@ func c18(x *mon.Ctx) {
 			w.Requote()
 			add(w, world.LBase, fmt.Sprintf("rtmr%d-bitflip", i), fmt.Sprint("bit", b), ref.Policy{}, measured[i], false)
 		}
+	}
+	// special register values on a correctly re-signed quote: all-zero ("never extended"), all-ones, another register's value
+	for i := 0; i < 4; i++ {
+		for name, val := range map[string][]byte{"all-zero": make([]byte, 48), "all-ones": bytes.Repeat([]byte{0xff}, 48), "next-registers-value": sq.Rtmrs[(i+1)%4]} {
+			if bytes.Equal(val, sq.Rtmrs[i]) {
+				continue
+			}
+			w := base.Clone()
+			copy(w.Q.Body[328+48*i:], val)
+			w.Requote()
+			add(w, world.LBase, fmt.Sprintf("rtmr%d-special-value", i), name, ref.Policy{}, measured[i], false)
+		}
+	}
+	// policy with unconstrained (empty) RTMR entries BEFORE the mismatching one
+	for i := 1; i < 4; i++ {
+		p := ref.Policy{Rtmrs: [][]byte{{}, {}, {}, {}}}
+		p.Rtmrs[i] = variant(r, "random-differs", sq.Rtmrs[i])
+		add(base, world.LBase, "policy-mismatch", fmt.Sprintf("rtmr%d-after-empty-entries", i), p, true, false)
+		p2 := ref.Policy{Rtmrs: [][]byte{nil, nil, nil, nil}}
+		p2.Rtmrs[i] = variant(r, "last-differs", sq.Rtmrs[i])
+		add(base, world.LBase, "policy-mismatch", fmt.Sprintf("rtmr%d-after-nil-entries", i), p2, true, false)
 	}
 	// a quote with RTMR contents swapped between registers
 	{
